@@ -468,6 +468,11 @@ def model_script(sc, tr):
             origin = next((s[3] for s in sc.steps if s[0] == "connect" and s[1] == c),
                           next((s[2] for s in sc.steps if s[0] == "connect_http" and s[1] == c), "local6"))
             local = 1 if origin in LOCAL_ORIGINS else 0
+            if not any(s[0] in ("connect", "connect_http") and s[1] == c for s in sc.steps):
+                # connection created by a literal harness line: take what the daemon's origin classification said
+                pl = getattr(tr.log.conns.get(c), "peer_local", None)
+                if pl is not None:
+                    local = 1 if pl else 0
             lines.append("connect %d %d %d %s" % (c, 1 if trn == "ws" else 0, local, C.hexs(addr.encode())))
             opmap.append(si)
         if k == "msg" or k == "batch":
